@@ -41,7 +41,7 @@ def cases(tier, seed):
     chunk = 50
     for lo in range(0, n, chunk):
         yield {"kind": "tiny", "params": params, "lo": lo, "hi": min(n, lo + chunk)}
-    nmesh, maxf = (400, 200) if tier == "quick" else (6000, 2500)
+    nmesh, maxf = (400, 200) if tier == "quick" else (40000, 2500)
     for i in range(nmesh):
         mf = maxf if i % 10 == 0 else min(maxf, 150)
         d = gen.random_mesh(rng, mf)
